@@ -40,6 +40,36 @@ func genGrid(t *rapid.T) Case {
 	return cs
 }
 
+// gridLiterals are positive constants around the sizes a constant can have
+// inside the compiler.
+var gridLiterals = []string{"1", "2", "3", "5", "10", "255", "256", "65535", "65537",
+	"2147483647", "2147483648", "2147483653", "4294967291", "4294967295", "4294967296",
+	"4294967297", "9223372036854775808", "18446744073709551615", "18446744073709551616"}
+
+// gridLiteral returns, one time in four, a literal of type T for the right
+// operand of op (never zero), nil otherwise or when T is too narrow.
+func gridLiteral(t *rapid.T, T mpcl.Type, op string, force bool) *mpcl.Expr {
+	if !force && (gen.Uniform(t, 4, "literal-operand") != 0 || T.N < 3) {
+		return nil
+	}
+	max := new(big.Int).Lsh(big.NewInt(1), uint(T.N))
+	if T.Signed() {
+		max.Rsh(max, 1)
+	}
+	var fit []string
+	for _, l := range gridLiterals {
+		v, _ := new(big.Int).SetString(l, 10)
+		if v.Cmp(max) < 0 {
+			fit = append(fit, l)
+		}
+	}
+	// The largest ones that fit are the interesting ones.
+	if len(fit) > 6 && gen.Uniform(t, 2, "literal-high") == 0 {
+		fit = fit[len(fit)-6:]
+	}
+	return &mpcl.Expr{Op: mpcl.ELit, T: T, Val: fit[gen.Uniform(t, len(fit), "literal")]}
+}
+
 func gridProg(t *rapid.T) *mpcl.Prog {
 	switch lv := gen.Uniform(t, 9, "levels"); {
 	case lv < 3:
@@ -68,6 +98,12 @@ func gridProg(t *rapid.T) *mpcl.Prog {
 	}
 	if (op == "/" || op == "%") && w < 2 {
 		w = 2
+	}
+	forceLit := false
+	if (op == "/" || op == "%") && gen.Uniform(t, 3, "literal-divisor") == 0 {
+		// A constant divisor that is narrower than the dividend.
+		forceLit = true
+		w = []int{33, 33, 34, 40}[gen.Uniform(t, 4, "literal-divisor-width")]
 	}
 	T := mpcl.Uint(w)
 	if w >= 2 && rapid.Bool().Draw(t, "signed") {
@@ -125,6 +161,13 @@ func gridProg(t *rapid.T) *mpcl.Prog {
 		R = S
 	default:
 		e = &mpcl.Expr{Op: mpcl.EBin, T: T, Name: op, A: []*mpcl.Expr{a, b}}
+		if lit := gridLiteral(t, T, op, forceLit); lit != nil {
+			// A literal right operand (a constant has its own width
+			// inside the compiler: 32 bits up to 2^32-1, 64 bits above);
+			// b stays in use.
+			e = &mpcl.Expr{Op: mpcl.EBin, T: T, Name: op, A: []*mpcl.Expr{a, lit}}
+			e = &mpcl.Expr{Op: mpcl.EBin, T: T, Name: "^", A: []*mpcl.Expr{e, b}}
+		}
 	}
 	p := &mpcl.Prog{Funcs: []*mpcl.Func{{Name: "main",
 		Params:  []mpcl.Param{{Name: "a", T: a.T}, {Name: "b", T: b.T}},
